@@ -102,6 +102,11 @@ OutcomeFunction ==
 PhaseIrrelevant ==
   kind = "hdr" => \A ph \in Phases : OutcomeAt(ph, len, h, dec) = Outcome(len, h, dec)
 
+\* what was received before is no exception either, and no message ends the service (the export uses both)
+HistoryIrrelevant ==
+  kind = "hdr" => /\ \A pre \in {<<>>, <<[len |-> 0]>>, <<[len |-> 11], [len |-> len]>>} : OutcomeAfter(pre, len, h, dec) = Outcome(len, h, dec)
+                  /\ ~EndsService(len, h)
+
 RouteInv ==
   kind = "route" =>
     LET R == RouteSet(PS, qn, qt)
